@@ -127,4 +127,89 @@ theorem C16_mapXml_perm_invariant' (cfg : EncCfg) (m m' : Entries) (rt : Option 
     (hp : List.Perm m m') (hd : distinctKeys m = true) : mapXml cfg m rt = mapXml cfg m' rt :=
   C16_mapXml_perm_invariant cfg m m' rt (equiv_map_of_perm hp hd)
 
+
+/-! ### "the same Map, however built": equal up to entry order at every depth, inductively -/
+
+mutual
+/-- `PermEq v w`: `w` is `v` with the entries of every map, at every depth, listed in some
+    other order (what two runs of a Go program that build the same map can differ in) -/
+inductive PermEq : Val → Val → Prop
+  | refl (v : Val) : PermEq v v
+  | list {xs ys : List Val} : PermEqList xs ys → PermEq (.list xs) (.list ys)
+  | map {kvs kvs' kvs'' : Entries} : PermEqEntries kvs kvs' → kvs'.Perm kvs'' →
+      PermEq (.map kvs) (.map kvs'')
+inductive PermEqList : List Val → List Val → Prop
+  | nil : PermEqList [] []
+  | cons {x y : Val} {xs ys : List Val} : PermEq x y → PermEqList xs ys →
+      PermEqList (x :: xs) (y :: ys)
+inductive PermEqEntries : Entries → Entries → Prop
+  | nil : PermEqEntries [] []
+  | cons {k : Str} {x y : Val} {xs ys : Entries} : PermEq x y → PermEqEntries xs ys →
+      PermEqEntries ((k, x) :: xs) ((k, y) :: ys)
+end
+
+mutual
+theorem PermEq.equiv : ∀ (v w : Val), v.wf = true → PermEq v w → v.norm = w.norm
+  | .null, w, _, h => by cases h; rfl
+  | .bool _, w, _, h => by cases h; rfl
+  | .num _, w, _, h => by cases h; rfl
+  | .str _, w, _, h => by cases h; rfl
+  | .list xs, w, hwf, h => by
+      cases h with
+      | refl => rfl
+      | list hl =>
+        simp only [Val.wf] at hwf
+        simp only [Val.norm, PermEqList.equiv xs _ hwf hl]
+  | .map kvs, w, hwf, h => by
+      cases h with
+      | refl => rfl
+      | map he hp =>
+        simp only [Val.wf, Bool.and_eq_true] at hwf
+        obtain ⟨h1, hk⟩ := PermEqEntries.equiv kvs _ hwf.1 he
+        simp only [Val.norm]
+        rw [h1]
+        congr 1
+        apply sortByKey_congr
+        · rw [keys_normEntries, ← hk]; exact (distinctKeys_iff kvs).1 hwf.2
+        · exact perm_normEntries hp
+theorem PermEqList.equiv : ∀ (xs ys : List Val), Val.wfList xs = true → PermEqList xs ys →
+    Val.normList xs = Val.normList ys
+  | [], ys, _, h => by cases h; rfl
+  | x :: xs, ys, hwf, h => by
+      cases h with
+      | cons hx hr =>
+        simp only [Val.wfList, Bool.and_eq_true] at hwf
+        simp only [Val.normList, PermEq.equiv x _ hwf.1 hx, PermEqList.equiv xs _ hwf.2 hr]
+theorem PermEqEntries.equiv : ∀ (xs ys : Entries), Val.wfEntries xs = true → PermEqEntries xs ys →
+    Val.normEntries xs = Val.normEntries ys ∧ keys xs = keys ys
+  | [], ys, _, h => by cases h; exact ⟨rfl, rfl⟩
+  | (k, x) :: xs, ys, hwf, h => by
+      cases h with
+      | cons hx hr =>
+        simp only [Val.wfEntries, Bool.and_eq_true] at hwf
+        obtain ⟨h1, h2⟩ := PermEqEntries.equiv xs _ hwf.2 hr
+        exact ⟨by simp only [Val.normEntries, PermEq.equiv x _ hwf.1 hx, h1],
+          by simp only [keys_cons, h2]⟩
+end
+
+/-- the same Map built in any entry order at any depth is `≈ᵥ` … -/
+theorem C16_permEq_equiv (v w : Val) (hwf : v.wf = true) (h : PermEq v w) : v ≈ᵥ w :=
+  PermEq.equiv v w hwf h
+
+/-- … and therefore encodes to byte-identical XML -/
+theorem C16_permEq_invariant (cfg : EncCfg) (key : Str) (v w : Val) (hwf : v.wf = true)
+    (h : PermEq v w) : marshal cfg key v = marshal cfg key w :=
+  C16_perm_invariant cfg key v w (C16_permEq_equiv v w hwf h)
+
+/-! ### non-vacuity -/
+
+example :
+    let a := Val.map [("b".toList, .num "i:2".toList),
+                      ("a".toList, .map [("y".toList, .null), ("x".toList, .bool true)])]
+    let b := Val.map [("a".toList, .map [("x".toList, .bool true), ("y".toList, .null)]),
+                      ("b".toList, .num "i:2".toList)]
+    a ≈ᵥ b ∧ marshal {} "r".toList a = .ok "<r><a><x>true</x><y/></a><b>2</b></r>".toList
+      ∧ marshal {} "r".toList b = .ok "<r><a><x>true</x><y/></a><b>2</b></r>".toList :=
+  ⟨by decide, rfl, rfl⟩
+
 end Mxj.C16
